@@ -75,6 +75,15 @@ theorem C20_work_length_only (a a' : Bytes) (h : a.length = a'.length) : compres
 theorem digest_uses_compressions (m : Bytes) :
     Sha256.digest m = (Sha256.blocks (compressions m) (Sha256.words (Sha256.pad m)) Sha256.init).bytes := rfl
 
+/-- nothing is left over: the padded message is cut into exactly `compressions m` whole 16-word blocks,
+and the padded message begins with ALL of `m` (no byte of the secret stays outside the digest) -/
+theorem C20_whole_input_hashed (m : Bytes) :
+    (Sha256.words (Sha256.pad m)).length = 16 * compressions m ∧ m <+: Sha256.pad m ∧
+    (Sha256.pad m).length = 64 * compressions m := by
+  refine ⟨?_, ⟨0x80 :: List.replicate ((119 - m.length % 64) % 64) 0 ++ Sha256.be64 (8 * m.length), by simp [Sha256.pad]⟩, ?_⟩
+  · rw [compressions_eq, words_length _ _ (Nat.le_refl _), pad_length]; omega
+  · rw [compressions_eq, pad_length]; omega
+
 /-! Non-vacuity (kernel-evaluated SHA-256 on small inputs) -/
 example : secEq [0x61] [0x61] = true := C20_refl _
 example : secEq [0x61] [0x62] = false := by decide +kernel
@@ -93,3 +102,4 @@ end C20
 #print axioms C20.C20_work_length_only
 #print axioms C20.compressions_eq
 #print axioms C20.digest_uses_compressions
+#print axioms C20.C20_whole_input_hashed
